@@ -17,6 +17,9 @@ type SpecCase struct {
 	Func         string    `json:"func"`
 	Quick        [][]int64 `json:"quick"`
 	Thorough     [][]int64 `json:"thorough"`
+	// cross products of [lo,hi] per parameter, appended to the explicit lists
+	QuickRanges    [][][2]int64 `json:"quick_ranges,omitempty"`
+	ThoroughRanges [][][2]int64 `json:"thorough_ranges,omitempty"`
 	Reach        []string  `json:"reach"`
 	MaxPaths     int       `json:"max_paths,omitempty"`
 	MaxSteps     int       `json:"max_steps,omitempty"`
@@ -99,9 +102,15 @@ func Check(cfg Config, prop string) int {
 	var reports []*CaseReport
 	var inconcl []string
 	for _, sc := range sp.Cases {
-		params := sc.Quick
-		if cfg.Tier == "thorough" && sc.Thorough != nil {
-			params = sc.Thorough
+		params := append([][]int64(nil), sc.Quick...)
+		for _, r := range sc.QuickRanges {
+			params = append(params, cross(r)...)
+		}
+		if cfg.Tier == "thorough" && (sc.Thorough != nil || sc.ThoroughRanges != nil) {
+			params = append([][]int64(nil), sc.Thorough...)
+			for _, r := range sc.ThoroughRanges {
+				params = append(params, cross(r)...)
+			}
 		}
 		for _, ps := range params {
 			c := Case{Pkg: sc.Pkg, Func: sc.Func, Params: ps, MaxPaths: sc.MaxPaths, MaxSteps: sc.MaxSteps, MaxMapPerm: sc.MaxMapPerm, Reach: sc.Reach, WitnessEvery: sc.WitnessEvery}
@@ -187,6 +196,20 @@ func Check(cfg Config, prop string) int {
 		fmt.Printf("%s: INCONCLUSIVE (%.1fs)\n", prop, wall)
 	}
 	return exit
+}
+
+func cross(r [][2]int64) [][]int64 {
+	out := [][]int64{{}}
+	for _, d := range r {
+		var next [][]int64
+		for _, p := range out {
+			for v := d[0]; v <= d[1]; v++ {
+				next = append(next, append(append([]int64(nil), p...), v))
+			}
+		}
+		out = next
+	}
+	return out
 }
 
 func capWitnesses(cases []*ReplayCase, maxW int) []*ReplayCase {
